@@ -1,11 +1,11 @@
 SPECIFICATION Spec
 CONSTANTS
     TaskIds = {t1, t2}
-    Shapes <- MCShapesQuick
-    Batches <- MCBatchesQuick
+    Shapes <- MCShapesThorough
+    Batches <- MCBatchesThorough
     DefaultRP = "rp1"
     MaxWrites = 2
-    MaxLifecycle = 3
+    MaxLifecycle = 4
     Dedup = TRUE
     FailCleansUp = TRUE
 SYMMETRY MCSymmetry
